@@ -805,4 +805,83 @@ def RelativefySafe (q : Path) (x : Entry) : Prop :=
 instance (q : Path) (x : Entry) : Decidable (RelativefySafe q x) := by
   unfold RelativefySafe; exact inferInstance
 
+/-! ### the shape the grammar gives a tree (used in theorem statements and by the driver op `conforms`)
+
+`kids` is `Generated.GrammarChildren.kids`: tree tag ↦ names its direct children can carry. -/
+
+/-- `b` can sit directly below a tree tagged `a` -/
+def relOf (kids : List (Str × List Str)) (a b : Str) : Bool := kids.any (fun kv => kv.1 == a && kv.2.contains b)
+
+mutual
+/-- every parent/child pair of names in the tree is allowed by `rel` -/
+def conformsB (rel : Str → Str → Bool) : Entry → Bool
+  | .tree t cs => conformsListB rel t cs
+  | .token _ _ => true
+  | .empty => true
+def conformsListB (rel : Str → Str → Bool) (parent : Str) : List Entry → Bool
+  | [] => true
+  | c :: cs => rel parent c.name && conformsB rel c && conformsListB rel parent cs
+end
+
+mutual
+/-- number of directly nested unresolvable tree entries on top of a further entry, starting at `e` itself: how many levels
+    `expand` has to look below `e` before every branch has met a resolvable tag or a terminal -/
+def uheight (canRes : Str → Bool) : Entry → Nat
+  | .tree t cs => if canRes t then 0 else if cs.isEmpty then 0 else 1 + uheightList canRes cs
+  | .token _ _ => 0
+  | .empty => 0
+def uheightList (canRes : Str → Bool) : List Entry → Nat
+  | [] => 0
+  | c :: cs => max (uheight canRes c) (uheightList canRes cs)
+end
+
+/-- all names that can sit directly below a tree tagged `a` -/
+def kidsOf (kids : List (Str × List Str)) (a : Str) : List Str := kids.flatMap (fun kv => if kv.1 == a then kv.2 else [])
+
+/-- no three unresolvable tags `a > b > c` nested directly inside one another with a further entry below `c`
+    (tag level, over any child relation) -/
+def ChainFree (rel : Str → Str → Bool) (canRes : Str → Bool) : Prop :=
+  ∀ a b c d, rel a b = true → rel b c = true → rel c d = true → canRes a = true ∨ canRes b = true ∨ canRes c = true
+
+/-- the same as a computation over the table -/
+def chainFreeB (kids : List (Str × List Str)) (canRes : Str → Bool) : Bool :=
+  kids.all fun kv => canRes kv.1 || kv.2.all fun b => canRes b || (kidsOf kids b).all fun c => canRes c || (kidsOf kids c).isEmpty
+
+/-! ### `ASTFinder.full_pathfy(entry, path, depth)`, `find`, `exists` (finder.py:10-22, 73-89, 90-134) -/
+
+mutual
+/-- `full_pathfy(entry, path, depth)` on strings as the list of `(key, value)` insertions: `depth == 0` stops at the entry
+    (`finder.py:117-118`), the recursion passes `depth - 1`, so a negative depth never stops. -/
+def pathfySD (d : Int) : Entry → Str → List (Str × Entry)
+  | .tree t cs, path => (path, .tree t cs) :: (if d == 0 then [] else pathfySDList (d - 1) cs cs 0 path)
+  | .token t v, path => [(path, .token t v)]
+  | .empty, path => [(path, .empty)]
+def pathfySDList (d : Int) (all : List Entry) : List Entry → Nat → Str → List (Str × Entry)
+  | [], _, _ => []
+  | c :: rest, i, path =>
+    let inPath :=
+      if countTag c.name all == 1 then dsnJoin [path, c.name]
+      else dsnJoin [path, c.name ++ '[' :: Str.natToDec i ++ [']']]
+    pathfySD d c inPath ++ pathfySDList d all rest (i + 1) path
+end
+
+/-- `full_pathfy(entry, path, depth)` as the resulting dict: an empty `path` stands for the entry's own name
+    (`finder.py:112-114`). -/
+def fullPathfyD (e : Entry) (path : Str) (depth : Int) : List (Str × Entry) :=
+  dictOfList (pathfySD depth e (if path.isEmpty then e.name else path))
+
+/-- `ASTFinder.find(root, via, tester, depth)` (`finder.py:73-89`): the entries at and below the entry plucked at `via`,
+    keyed by full paths that continue `via` itself, filtered by `tester(entry, path)`. -/
+def findS (root : Entry) (via : Str) (tester : Entry → Str → Bool) (depth : Int) : Except Err (List (Str × Entry)) :=
+  match pluckS root via with
+  | .error er => .error er
+  | .ok entry => .ok ((fullPathfyD entry via depth).filter (fun kv => tester kv.2 kv.1))
+
+/-- `ASTFinder.exists(root, full_path)` (`finder.py:10-22`): only `Errors.NodeNotFound` is turned into `False`. -/
+def finderExists (root : Entry) (p : Str) : Except Err Bool :=
+  match pluckS root p with
+  | .ok _ => .ok true
+  | .error .nodeNotFound => .ok false
+  | .error er => .error er
+
 end Tranp.AstPath
